@@ -359,3 +359,100 @@ for _kind in ("static rectangle", "static circle", "dynamic without prediction",
     register(Drawn(_kind, None, symbolic_t=True))
 for _kind, _w in itertools.product(("dynamic with set-based prediction", "phantom", "dynamic with trajectory", "dynamic without prediction"), WINDOWS):
     register(Drawn(_kind, _w))
+
+
+# ------------------------------------------------------------------------------ (c) which lanelets are drawn
+
+from commonroad.scenario.lanelet import Lanelet, LaneletNetwork  # noqa: E402
+from pyvc.runner import summary_provider  # noqa: E402
+
+
+@summary_provider("c19_colormap")
+def _colormap_summary():
+    """commonroad.visualization.util.colormap_idx builds a matplotlib colour map; with unique_colors off its result is never
+    called -- replaced by an opaque callable"""
+    from pyvc.interp import ModelFn
+
+    def summ(interp, args, kwargs):
+        def never(it, a, k):
+            from pyvc.core import Unsupported
+
+            raise Unsupported("colour map evaluated (unique_colors is off in this contract)")
+        return ModelFn(never, "colormap")
+    return {"commonroad.visualization.util.colormap_idx": summ}
+
+
+DRAW_IDS = {"None (all lanelets)": None, "empty list (no lanelet)": [], "[12]": [12], "[13, 11]": [13, 11], "[11, 12, 13]": [11, 12, 13], "[12, 99]": [12, 99]}
+
+
+class LaneletsDrawn(Contract):
+    prop = "C19"
+    target = "commonroad.visualization.mp_renderer.MPRenderer.draw_lanelet_network"
+    summaries = ("c19_colormap",)
+    budget_s = 200
+
+    def __init__(self, name):
+        self.name = name
+        self.case = "draw_ids = %s" % name
+        self.describe = "the filled lanelet polygons and the bound / centre paths recorded are exactly those of the selected lanelets (all for None), in network order"
+
+    def build(self, F):
+        net = F.new(LaneletNetwork)
+        lanes = []
+        for k, lid in enumerate((11, 12, 13)):
+            left, right = poly2(F, "L%dl" % lid), poly2(F, "L%dr" % lid)
+            center = 0.5 * (left + right) if F.native else F.interp.binop(__import__("ast").Mult, 0.5, F.interp.binop(__import__("ast").Add, left, right))
+            la = F.new(Lanelet, left, center, right, lid)
+            F.method(net, "add_lanelet", la)
+            lanes.append(la)
+        params = F.new(dp.MPDrawParams)
+        ln = F.attr(params, "lanelet_network")
+        lp = F.attr(ln, "lanelet")
+        for k in ("draw_line_markings", "draw_stop_line", "draw_start_and_direction", "show_label", "draw_border_vertices", "unique_colors", "colormap_tangent"):
+            F.setattr(lp, k, False)
+        F.setattr(F.attr(ln, "traffic_light"), "draw_traffic_lights", False)
+        F.setattr(F.attr(ln, "traffic_sign"), "draw_traffic_signs", False)
+        F.setattr(F.attr(ln, "intersection"), "draw_intersections", False)
+        ids = DRAW_IDS[self.name]
+        F.setattr(ln, "draw_ids", None if ids is None else list(ids))
+        return {"net": net, "lanes": lanes, "params": params, "r": renderer_for(F, params), "ids": ids, "args": []}
+
+    def invoke(self, F, inp):
+        F.method(inp["r"], "draw_lanelet_network", inp["net"], F.attr(inp["params"], "lanelet_network"))
+        return list(F.items(F.attr(inp["r"], "static_collections")))
+
+    def post(self, F, inp, out):
+        yield ("drawing raises nothing", out.exc is None)
+        if out.exc is not None:
+            return
+        sel = [la for la, lid in zip(inp["lanes"], (11, 12, 13)) if inp["ids"] is None or lid in inp["ids"]]
+        cols = out.value
+        if F.native:
+            polys = [c for c in cols if type(c).__name__ == "PolyCollection"]
+            got = [np.asarray(p.vertices)[:-1] if len(p.vertices) > 4 else np.asarray(p.vertices) for c in polys[:1] for p in c.get_paths()]
+            paths = [[np.asarray(p.vertices) for p in c.get_paths()] for c in cols if type(c).__name__ == "PathCollection"]
+        else:
+            polys = [c for c in cols if c.kind == "PolyCollection"]
+            got = list(polys[0].args[0]) if polys else []
+            paths = [[p.args[0] for p in c.args[0]] for c in cols if c.kind == "PathCollection"]
+        yield ("exactly one fill collection", len(polys) == 1)
+        yield ("as many filled polygons as selected lanelets (%d)" % len(sel), len(got) == len(sel))
+        if len(got) == len(sel):
+            cs = []
+            for g, la in zip(got, sel):
+                r, l = F.attr(la, "right_vertices"), F.attr(la, "left_vertices")
+                if F.native:
+                    exp = np.concatenate((r, np.flip(l, 0)))
+                    cs.append(g.shape == exp.shape and bool(np.all(g == exp)))
+                else:
+                    fr, fl = F.elems(r), F.elems(l)
+                    exp = fr + [fl[2], fl[3], fl[0], fl[1]]
+                    fg = F.elems(g)
+                    cs.append(len(fg) == len(exp) and conj(R(x) == R(y) for x, y in zip(fg, exp)))
+            yield ("every filled polygon is right bound followed by the reversed left bound of its lanelet, in network order", all(cs) if F.native else conj(cs))
+        # (the centre-line collection stays empty unless unique_colors or colormap_tangent is on -- not part of the property)
+        yield ("right-bound and left-bound collections each hold one path per selected lanelet", len(paths) >= 2 and all(len(p) == len(sel) for p in paths[:2]))
+
+
+for _n in DRAW_IDS:
+    register(LaneletsDrawn(_n))
